@@ -65,7 +65,7 @@ Init == /\ \/ part = "laws" /\ ms \in MacroSets /\ inp \in Inputs
         /\ S = S0 /\ n = 0 /\ r1 = None /\ r2 = None /\ r3 = None
 ExpandInput == /\ part = "laws" /\ n = 0 /\ n' = 1
                /\ r1' = Exp(ms, "inter", inp, <<>>, {}, Fuel, "text")
-               /\ r2' = Exp(ms, "union", inp, <<>>, {}, Fuel, "text")
+               /\ r2' = Exp(ms, "nested", inp, <<>>, {}, Fuel, "text")
                /\ r3' = IF r1'.st = "ok" THEN Exp(ms, "inter", r1'.toks, <<>>, {}, Fuel, "text") ELSE None
                /\ UNCHANGED <<part, ms, inp, S>>
 
@@ -115,9 +115,9 @@ LawSpellings == (Done /\ r1.st = "ok" /\ ~WithOps) =>
                    \A j \in 1..Len(r1.toks) : \E x \in Alpha : x.t = r1.toks[j].t
 LawNoMacros == (Done /\ ms = <<>>) => r1.st = "ok" /\ r1.toks = inp
 \* only function-like invocations can make the two readings of the hide-set rule differ,
-\* and where they agree on the tokens the union reading hides at least as much
+\* and where they agree on the tokens the nested reading hides at least as much
 LawObjectOnly == (Done /\ \A j \in 1..Len(ms) : ~ms[j].fl) => r2 = r1
-LawUnionHidesMore == (Done /\ r1.st = "ok" /\ r2.st = "ok" /\ Proj(r1.toks) = Proj(r2.toks)) =>
+LawNestedHidesMore == (Done /\ r1.st = "ok" /\ r2.st = "ok" /\ Proj(r1.toks) = Proj(r2.toks)) =>
                         \A j \in 1..Len(r1.toks) : r1.toks[j].hs \subseteq r2.toks[j].hs
 
 \* ---- invariants of the machine ------------------------------------------------
